@@ -20,3 +20,12 @@ func releaseThenGo126(tier string) []string {
 	}
 	return []string{"release"}
 }
+
+// releaseAnd386 additionally runs the GOARCH=386 binary already in the quick tier (cheap
+// pure-function properties).
+func releaseAnd386(tier string) []string {
+	if tier == "thorough" {
+		return []string{"release", "go126", "386"}
+	}
+	return []string{"release", "386"}
+}
